@@ -1,0 +1,2 @@
+// Only compiled under `cargo kani` (cfg(kani)); the harness text lives in /verif.
+include!(concat!(env!("AELYS_VERIF_GEN"), "/../harness/opt/fold.rs"));
